@@ -275,6 +275,19 @@ theorem HistInv.flush_true_frame {sid : StateId} {snap : Snap} {res p : List Res
     · intro u hu
       exact h.queueBelow u (by simp only [existsUids_append]; exact List.mem_append_right _ hu)
 
+/-- the permitting flush of CLOSE (nothing announced) does not fail either -/
+theorem HistInv.close_flush_not_err {sid : StateId} {snap : Snap} {res p : List Responder} {mb : Mbox}
+    (h : HistInv sid { snap, res := res ++ p } mb) (e : Err) : (flush true true sid snap res).result ≠ .err e := by
+  obtain ⟨sF, hsF, _⟩ := conv_iff.mp h.conv
+  simp only at hsF
+  rw [run_append] at hsF
+  cases h1 : run sid snap res with
+  | none => rw [h1] at hsF; cases hsF
+  | some s1 =>
+    have hpop : popResponders true res = (res, []) := by simp [popResponders]
+    have hrun : run sid snap (popResponders true res).1 = some s1 := by rw [hpop]; exact h1
+    exact flush_result_not_err hrun e
+
 /-- a `permitExpunge = false` flush of `res` keeps the invariant of `res ++ p` -/
 theorem HistInv.flush_false_frame {sid : StateId} {snap : Snap} {res p : List Responder} {mb : Mbox}
     (h : HistInv sid { snap, res := res ++ p } mb) :
